@@ -7,6 +7,7 @@ import (
 
 	"aaverif/internal/plan"
 	"aaverif/internal/ref"
+	"aaverif/internal/rng"
 )
 
 var (
@@ -139,4 +140,46 @@ func (e *Env) ownEncoding(drv string, ent []byte, lang int) string {
 		return ""
 	}
 	return string(unhex(s.Out))
+}
+
+// addressReuse runs processes made of call pairs: the first call's string argument becomes
+// garbage, is collected, and the second call's argument (same byte length) is allocated, if
+// the allocator allows, at the very same address. judge sees every second call together with
+// whether the address was really reused. Returns (pairs, pairs with the address reused).
+func (e *Env) addressReuse(drv, label string, procs, pairsPerProc int, mk func(r *rng.R, k int) (plan.Op, plan.Op, bool), judge func(ops []plan.Op, i int, r *plan.Res, reused bool)) (int, int) {
+	var mu sync.Mutex
+	pairs, hits := 0, 0
+	env := []string{"GOMAXPROCS=1", "VERIF_ENVTAG=GOMAXPROCS=1"}
+	parallel(procs, e.Workers, func(pi int) {
+		r := rng.New(e.Seed, label+"-addr-"+itoa(pi))
+		var ops []plan.Op
+		for k := 0; k < pairsPerProc; k++ {
+			a, b, ok := mk(r, k)
+			if !ok {
+				continue
+			}
+			a.I, b.I, b.Reuse = len(ops), len(ops)+1, true
+			ops = append(ops, a, b)
+		}
+		res, died := e.RunProc(drv, ops, env, 0)
+		if died != "" || len(res) != len(ops) {
+			return
+		}
+		for i := 1; i < len(res); i += 2 {
+			hit := false
+			for _, inf := range res[i].Info {
+				hit = hit || inf == "address-reused"
+			}
+			mu.Lock()
+			pairs++
+			if hit {
+				hits++
+			}
+			mu.Unlock()
+			if res[i].Panic == "" {
+				judge(ops, i, &res[i], hit)
+			}
+		}
+	})
+	return pairs, hits
 }
